@@ -5,6 +5,7 @@
 #include <time.h>
 #include <unistd.h>
 
+#include "ambient.h"
 #include "runner.h"
 #include "statics.h"
 #ifdef SIM_COV
@@ -153,6 +154,7 @@ int main(int argc, char **argv) {
                 "minimize <in> <out>\n");
         return 2;
     }
+    ambientInit();
     heapInit();
     containInstall();
     symLoad(argv[0]);
